@@ -141,8 +141,15 @@ impl<'ast> Visit<'ast> for Inner {
         visit::visit_field_value(self, f);
     }
     fn visit_expr_closure(&mut self, c: &'ast syn::ExprClosure) {
+        let mut wilds: Vec<String> = vec![];
+        for i in c.inputs.iter() {
+            let p = match i { syn::Pat::Type(t) => &*t.pat, other => other };
+            if let syn::Pat::Wild(w) = p {
+                wilds.push(sp(br(w.span())));
+            }
+        }
         self.closures
-            .push(format!("{{\"span\":{},\"body\":{}}}", sp(br(c.span())), sp(br(c.body.span()))));
+            .push(format!("{{\"span\":{},\"body\":{},\"wilds\":[{}]}}", sp(br(c.span())), sp(br(c.body.span())), wilds.join(",")));
         self.depth_closure += 1;
         visit::visit_expr_closure(self, c);
         self.depth_closure -= 1;
